@@ -1782,3 +1782,168 @@ func init() {
 		},
 	})
 }
+
+// ---------------------------------------------------------------- a null result is a fresh null each time
+//
+// A match whose selected case has a block body, or that selects no case, yields null -- whatever
+// the program did with the nulls earlier matches yielded. The only way to write to what a match
+// yielded is to bind it (the null-yielding match as the subject of an outer match whose
+// identifier pattern binds it, directly, through a function result, through the body value of
+// another match, through two nested bindings) and to assign to the binding (= ++ -- += a
+// container); passing it to a function that assigns to its parameter and storing it in a variable
+// that is then changed are the copies that must not matter either. Afterwards, over several
+// records, further null-yielding matches are printed: each must print null.
+
+var c19NullMatches = []string{
+	"match ($) { 1 => 'one', 2 => 'two' }", // no case matches (records 1 and 2 excepted)
+	"match ($) { 97 => 'x' }",
+	"match ($) { qq => { cnt++ } }", // block body
+	"match ($) { }",
+	"match ([$]) { [aa, bb] => aa }",
+	"match ($) { 98, 99 => 1, [zz] => 2 }",
+	"none($)",                                    // the null comes out of a function
+	"match (1) { 1 => match ($) { 97 => 'x' } }", // the body value of another match
+	"match ($) { qq => match (qq) { 97 => 'x' } }",
+}
+
+var c19NullWrites = []string{
+	"nm = nm + '!'", "nm = 'T'", "nm++", "++nm", "nm--", "nm += 5", "nm -= 1", "nm = $", "nm = [$, 'in']", "nm = {k: 1}", "nm = true", "nm = 0",
+	"match (nm) { deep => { deep = 'D' } }\n", "nm = nm", "setp(nm)\n    nm = 'after'",
+}
+
+type c19Obs struct{ stmt, want string }
+
+var c19NullObs = []c19Obs{
+	{"print 'O', match ($) { 97 => 'x' }", "O null"},
+	{"print 'O', match ($) { 1 => 'one', 2 => 'two' }", "O ?"}, // ? = one / two / null by the record
+	{"r = match ($) { qq => { cnt++ } }\n  print 'O', r, r is null", "O null true"},
+	{"print 'O', match ($) { }", "O null"},
+	{"print 'O', none($)", "O null"},
+	{"print 'O', match ([$, 1]) { [aa] => aa }", "O null"},
+	{"print 'O', (match ($) { 97 => 1 }) is null, (match ($) { qq => { cnt++ } }) == null", "O true true"},
+	{"printf('O %v|%5v\\n', match ($) { 97 => 1 }, match ($) { qq => { cnt++ } })", "O null| null"},
+	{"print 'O', json(match ($) { 97 => 1 })", "O null"},
+	{"print 'O', [match ($) { 97 => 1 }, match ($) { qq => { cnt++ } }], {k: match ($) { }}", `O [null, null] {"k": null}`},
+	{"print 'O', match (match ($) { 97 => 1 }) { null => 'was null', other => other }", "O was null"},
+	{"print 'O', blk($), match ($) { 96 => 0 }", "O null null"},
+	{"w = match ($) { 97 => 1 }\n  print 'O', w, w is null, w is unknown", "O null true false"},
+}
+
+func c19NullResultCase(r *rand.Rand) Case {
+	nrec := 2 + r.Intn(4)
+	recs := make([]int, nrec)
+	for i := range recs {
+		recs[i] = pick(r, []int{1, 2, 3, 3, 4, 5, 5, 6, 7})
+	}
+	if chance(r, 0.7) {
+		recs[0] = 3 + r.Intn(4) // the first record yields a null to write to
+	}
+	funcs := "function none(v) { return match (v) { 97 => 'x' } }\nfunction blk(v) { return match (v) { qq => { cnt++ } } }\nfunction setp(p) { p = 'P'; p++; return p }\n"
+	// the writes
+	var wr strings.Builder
+	nw := 1 + r.Intn(3)
+	for k := 0; k < nw; k++ {
+		m := pick(r, c19NullMatches)
+		switch x := r.Intn(10); {
+		case x < 6:
+			w := pick(r, c19NullWrites)
+			wr.WriteString("  match (" + m + ") { nm => {\n    " + w + "\n    print 'T', nm\n  } }\n\n")
+		case x < 7:
+			// two bindings of the same result, both assigned
+			w := pick(r, c19NullWrites)
+			if strings.HasPrefix(w, "++") {
+				w = "nm *= 3" // a line that starts with ++ would continue the match expression before it
+			}
+			wr.WriteString("  match (" + m + ") { nm => {\n    match (nm) { inner => { inner = 'I'; print 'T', inner, nm } }\n\n    " + w + "\n    print 'T', nm\n  } }\n\n")
+		case x < 8:
+			// a copy passed to a function that assigns to its parameter
+			wr.WriteString("  print 'T', setp(" + m + ")\n")
+		case x < 9:
+			// a copy stored in a variable that is changed afterwards
+			wr.WriteString("  st = " + m + "\n  st" + pick(r, []string{"++", " += 2", " = 'S'"}) + "\n  print 'T', st\n")
+		default:
+			// the binding written in an expression body
+			wr.WriteString("  print 'T', match (" + m + ") { nm => nm = 'E' }\n")
+		}
+	}
+	// the observations
+	no := 2 + r.Intn(4)
+	obs := make([]c19Obs, no)
+	var ob strings.Builder
+	for k := range obs {
+		obs[k] = pick(r, c19NullObs)
+		ob.WriteString("  " + obs[k].stmt + "\n")
+	}
+	var prog string
+	layout := r.Intn(5)
+	switch layout {
+	case 0, 1: // writes and observations in one rule
+		prog = funcs + "{\n" + wr.String() + ob.String() + "}\n"
+	case 2: // observations in a second rule and once more at the end
+		prog = funcs + "{\n" + wr.String() + "}\n{\n" + ob.String() + "}\nEND {\n" + ob.String() + "}\n"
+	case 3: // the writes happen once, on the first record only
+		prog = funcs + "$index == 0 {\n" + wr.String() + "}\n{\n" + ob.String() + "}\n"
+	default: // the writes inside a function
+		prog = funcs + "function writes() {\n" + wr.String() + "}\n{\n  writes()\n" + ob.String() + "}\n"
+	}
+	var want []string
+	line := func(o c19Obs, rec int) string {
+		if o.want == "O ?" {
+			return "O " + map[int]string{1: "one", 2: "two"}[rec] + map[bool]string{true: "null", false: ""}[rec > 2]
+		}
+		return o.want
+	}
+	for _, rec := range recs {
+		for _, o := range obs {
+			want = append(want, line(o, rec))
+		}
+	}
+	if layout == 2 {
+		for _, o := range obs {
+			want = append(want, line(o, 99)) // in END $ is the whole input, no record
+		}
+	}
+	doc := make([]string, nrec)
+	for i, v := range recs {
+		doc[i] = fmt.Sprint(v)
+	}
+	return Case{Req: RunReq(prog, nil, []File{{Name: "in.json", Data: []byte("[" + strings.Join(doc, ", ") + "]")}}, false), Fields: []string{"class", "out"},
+		Meta: metaProg(prog, "input", "["+strings.Join(doc, ", ")+"]", "want_O_lines", strings.Join(want, " / "), "row", fmt.Sprintf("layout %d", layout)),
+		Oracle: func(i Resp) string {
+			if i["class"] != "ok" {
+				return "expected class ok, got " + i["class"] + " " + i["msg"]
+			}
+			var got []string
+			for _, l := range strings.Split(string(i.Bytes("out")), "\n") {
+				if strings.HasPrefix(l, "O") {
+					got = append(got, l)
+				}
+			}
+			for k := 0; k < len(got) || k < len(want); k++ {
+				g, w := "<none>", "<none>"
+				if k < len(got) {
+					g = got[k]
+				}
+				if k < len(want) {
+					w = want[k]
+				}
+				if g != w {
+					return fmt.Sprintf("a match that selects a block body or no case yields null whatever was done with earlier results: observation %d prints %q, want %q", k+1, g, w)
+				}
+			}
+			return ""
+		},
+		NonTrivial: func(i Resp) bool { return i["class"] == "ok" }}
+}
+
+func init() {
+	register(Family{
+		Name: "null-results-written", Prop: "C19",
+		Rule: "null-yielding matches (no case matches, block body, empty case list, array pattern of another length, several alternatives; directly, as a function's result, as the body value of another match) whose result is bound by an outer match (`match (M) { nm => { … } }`) and written through the binding (= a string / number / bool / the record / an array / an object, + '!', ++ -- += -=, a second nested binding, an expression body `nm = 'E'`), passed to a function that assigns to its parameter, or stored in a variable that is then changed -- 1-3 such writes per record, in the rule, on the first record only, in a separate rule, or inside a function -- followed over 2-5 records (and in END) by 2-5 observations of further null-yielding matches (print, assignment + is null, a function's result, is null / == null, printf %v, json(), inside array and object literals, as the subject of another match); oracle: every observation line is exactly null (or one / two where the record selects that case) on every record; the whole output is compared with the model",
+		Gen: func(r *rand.Rand, tier string, emit func(Case)) {
+			for i, n := 0, tierN(tier, 2500, 30000); i < n; i++ {
+				emit(c19NullResultCase(r))
+			}
+		},
+	})
+}
